@@ -51,9 +51,19 @@ type Case struct {
 	Body       []Elem
 	ViaPackage bool // call the package-level wrapper (DefaultDatasource)
 	NilClient  bool // the datasource has no Client of its own (falls back to DefaultDatasource.Client) but keeps its own Limiter and BaseURL
+	// NewDS: the datasource comes from osmapi.NewDatasource(client), created
+	// while DefaultDatasource carries another base URL and a failing limiter;
+	// BaseURL / Limiter are then set on it only if the case asks for them.
+	NewDS bool
 }
 
-var bases = []string{"", "http://osm.test/api/0.6", "https://mirror.test:8443/some/prefix/api/0.6"}
+type pollutedLimiter struct{}
+
+var errPolluted = errors.New("harness: the limiter of DefaultDatasource was consulted")
+
+func (pollutedLimiter) Wait(context.Context) error { return errPolluted }
+
+var bases = []string{"", "http://osm.test/api/0.6", "https://mirror.test:8443/some/prefix/api/0.6", "http://osm.test/osm%20mirror/100%25/api/0.6"}
 
 const defaultBase = "http://api.openstreetmap.org/api/0.6"
 
@@ -456,6 +466,19 @@ func check(c Case) error {
 	if c.Limiter != 0 {
 		ds.Limiter = rec
 	}
+	if c.NewDS && !c.ViaPackage && !c.NilClient {
+		old := *osmapi.DefaultDatasource
+		defer func() { *osmapi.DefaultDatasource = old }()
+		osmapi.DefaultDatasource.BaseURL = "http://polluted.test/other/api/0.6"
+		osmapi.DefaultDatasource.Limiter = pollutedLimiter{}
+		ds = osmapi.NewDatasource(&http.Client{Transport: rec})
+		if c.Base != 0 {
+			ds.BaseURL = bases[c.Base]
+		}
+		if c.Limiter != 0 {
+			ds.Limiter = rec
+		}
+	}
 	if c.ViaPackage {
 		old := *osmapi.DefaultDatasource
 		defer func() { *osmapi.DefaultDatasource = old }()
@@ -697,6 +720,9 @@ func genCase(t *rapid.T) Case {
 	c.ID = rapid.SampledFrom([]int64{0, 1, 7, 123456789, 1 << 40}).Draw(t, "id")
 	c.Version = rapid.IntRange(0, 70).Draw(t, "version")
 	n := rapid.IntRange(0, 40).Draw(t, "nids")
+	if rapid.IntRange(0, 11).Draw(t, "manyIDs") == 0 {
+		n = rapid.SampledFrom([]int{600, 745, 800, 2000}).Draw(t, "nidsMany") // request URLs of 6..20 KB
+	}
 	for i := 0; i < n; i++ {
 		c.IDs = append(c.IDs, int64(rapid.IntRange(1, 1<<31).Draw(t, "idn")))
 	}
@@ -711,11 +737,12 @@ func genCase(t *rapid.T) Case {
 	c.Limit = rapid.SampledFrom([]int{1, 100, 9999, 10000, 0, -1, 10001, 50}).Draw(t, "limit")
 	c.HasClosed = rapid.Bool().Draw(t, "hasClosed")
 	c.Closed = rapid.IntRange(-1, 30).Draw(t, "closed")
-	c.Base = rapid.IntRange(0, 2).Draw(t, "base")
+	c.Base = rapid.IntRange(0, 3).Draw(t, "base")
 	c.Limiter = rapid.SampledFrom([]int{0, 1, 1, 2}).Draw(t, "limiter")
 	c.Status = rapid.SampledFrom(statuses).Draw(t, "status")
 	c.ViaPackage = rapid.IntRange(0, 3).Draw(t, "pkg") == 0
 	c.NilClient = !c.ViaPackage && rapid.IntRange(0, 3).Draw(t, "nilClient") == 0
+	c.NewDS = !c.ViaPackage && !c.NilClient && rapid.IntRange(0, 3).Draw(t, "newDS") == 0
 	ep := endpoints[c.Endpoint]
 	// response body: 0, 1 or many elements of the requested kind plus other kinds
 	kinds := []string{"node", "way", "relation", "changeset", "note", "user"}
@@ -739,7 +766,7 @@ func genCase(t *rapid.T) Case {
 func TestEndpoints(t *testing.T) {
 	harness.Run(t, harness.Spec[Case]{
 		Name: "endpoints", N: 20000,
-		Rule:  "all 26 public Datasource calls (a quarter through the package-level wrappers) x ids (0, 1, large, lists of 0..40) x At option with times in several zones x notes options (Limit in and out of [1,10000], MaxDaysClosed) x base URL (default, custom, custom with path prefix) x limiter (none, passing, failing) x status in {200,201,202,203,204,206,400,401,403,404,405,409,410,412,414,429,500,502,503,509} x response documents with 0,1,many elements of the requested kind mixed with other kinds, served by an in-process http.RoundTripper; oracle = the harness's transcription of API v0.6: exactly one GET, path and decoded query-parameter multiset (bbox within 1e-6, at= in UTC layout, ids comma-joined, q decoded), limiter waited exactly once strictly before the request and no request when it fails, 200 => exactly the elements of the requested kind in order, single-element calls reject != 1, typed errors per status carrying the request URL, NotFound only for 404, never partial data; non-trivial = non-200 status, or a list call with >= 2 ids, or an option present",
+		Rule:  "all 26 public Datasource calls (a quarter through the package-level wrappers) x ids (0, 1, large, lists of 0..40, one case in twelve 600..2000 ids giving request URLs of 6..20 KB) x At option with times in several zones x notes options (Limit in and out of [1,10000], MaxDaysClosed) x base URL (default, custom, custom with path prefix, custom with percent-escapes in its path) x datasource construction (struct literal, no Client of its own, package-level wrappers, osmapi.NewDatasource while DefaultDatasource carries another base URL and a failing limiter) x limiter (none, passing, failing) x status in {200,201,202,203,204,206,400,401,403,404,405,409,410,412,414,429,500,502,503,509} x response documents with 0,1,many elements of the requested kind mixed with other kinds, served by an in-process http.RoundTripper; oracle = the harness's transcription of API v0.6: exactly one GET, path and decoded query-parameter multiset (bbox within 1e-6, at= in UTC layout, ids comma-joined, q decoded), limiter waited exactly once strictly before the request and no request when it fails, 200 => exactly the elements of the requested kind in order, single-element calls reject != 1, typed errors per status carrying the request URL, NotFound only for 404, never partial data; non-trivial = non-200 status, or a list call with >= 2 ids, or an option present",
 		Gen:   genCase,
 		Check: check,
 		Classify: func(c Case) (bool, []string) {
